@@ -7,7 +7,7 @@ from verifpy.common import ROOT, BUILD, GO, case_of, sh, Lock
 
 # observation fields whose disagreement concerns a property (see Driver/Envelope.lean)
 FIELDS = {
-    "C01": {"res"}, "C02": {"res", "calls", "rows"}, "C03": {"calls"}, "C04": {"res", "rows"},
+    "C01": {"res"}, "C02": {"res", "calls", "rows"}, "C03": {"calls", "log"}, "C04": {"res", "rows"},
     "C05": {"res", "rows"}, "C07": {"res"}, "C09": {"sec"}, "C10": {"dirty"}, "C20": {"calls"},
 }
 
